@@ -11,11 +11,26 @@ def hook_commits():
     return [l.split()[0] for l in out.splitlines() if l.split(" ", 1)[1].startswith("verif:")]
 
 CHECKS = {
+ "C04": dict(engine="cosched", level="exploration", section="5 C04", technique="schedule exploration: generated graphs x generated schedules on a cooperative token scheduler (rapid), plus delay-injection runs and -race in thorough",
+   text="The real runner.Run executes generated acyclic graphs with recording Targets while a cooperative scheduler that owns every scheduling point of "
+        "runner.go takes each decision from a generated choice vector (deterministic, shrinkable, exact deadlock detection); a third of the cases run free "
+        "with generated delays. Oracle: once-only load/evaluate, completion before continuation, actual outcomes handed over, Run's result.",
+   note="Interleavings inside windows without a scheduling point are only reached by the delay-injection mode and -race (thorough); graphs <= 14 nodes."),
+ "C05": dict(engine="cosched", level="exploration", section="5 C05", technique="schedule exploration (rapid) with exact deadlock/livelock detection, bounded-exhaustive schedules for a catalogue of tiny graphs, limits 1-4 and 16 via CPU affinity",
+   text="Generated digraphs (self-loops, overlapping cycles, cycles off the root) run on the real runner under generated fair schedules at parallelism limits "
+        "1,2,3,4,16; termination is decided by the scheduler (confirmed all-parked dump = deadlock, >400k scheduling points = livelock), and the cycle "
+        "error must appear exactly when the reachable graph is cyclic. A catalogue of 7 tiny graphs is run under every schedule with <=1 (quick) / <=2 "
+        "(thorough) preemptions.",
+   note="Termination is decided on generated graphs and fair schedules only; graphs <= 10 nodes and <= 4096 paths (the runner's cycle walk is not memoised)."),
  "C07": dict(engine="starval", level="exploration", section="5 C07", technique="property-based testing (rapid): round-trip / isomorphism oracle over generated values",
    text="Generated-value search (rapid, shrinking) against a structural-isomorphism oracle that also compares types and aliasing, plus a pair oracle "
         "(one-leaf mutations must not decode equal) and encode determinism/fixpoint. Boundary classes (int widths, string lengths, batch sizes at every "
         "position, sharing, cycles, host objects) are forced by the generator and counted in the evidence.",
    note="Trusts the harness' Iso relation and starlark.Equal; sizes <= 3002 elements, strings <= 65537 bytes; cycles through a host object's argument tuple are outside the generator (C08 covers recursion)."),
+ "C09": dict(engine="cosched", level="exploration", section="5 C09", technique="schedule exploration (rapid) over configurations: limits 1,2,3,4,16 via CPU affinity, invariant on a harness counter of executing targets",
+   text="Shards run under taskset with 1,2,3,4 and 16 CPUs (the runner's limit is runtime.NumCPU); graphs are biased to fans wider than the limit. The harness "
+        "counter of executing targets must never exceed the limit; leaked or held slots show as a confirmed deadlock, extra releases as counter > limit.",
+   note="The counter is a lower bound of the slots held (incremented after a slot is taken, decremented before it is returned); limits other than 1,2,3,4,16 are not run."),
  "C10": dict(engine="mvssim", level="exploration", section="5 C10", technique="property-based testing (rapid): differential against a reference MVS (reachability + max) plus metamorphic cache/order variations",
    text="Generated universes (diamonds, cycles, several majors, pre-releases) and root requirement sets are resolved by mvs.BuildList and by an independent "
         "BFS/maximum reference; the answer must be identical with warm memo, warm disk cache, cold cache and all requirement names renamed.",
@@ -79,6 +94,7 @@ def main():
         },
         "engines": [
             {"name": "starval", "path": "harness/starval", "serves_properties": ["C07", "C15", "C16"], "kind_free_text": "Starlark value generator (plain-data descriptors), builder with sharing/cycles/host objects, isomorphism oracle"},
+            {"name": "cosched", "path": "harness/cosched + harness/rungraph", "serves_properties": ["C04", "C05", "C06", "C09", "C20"], "kind_free_text": "cooperative token scheduler / delay injector driven by verif-tagged hook call sites; generated graphs executed on the real runner"},
             {"name": "mvssim", "path": "harness/mvssim", "serves_properties": ["C10", "C11"], "kind_free_text": "generated requirement universes served through vcs.Repository, reference MVS and query resolver"},
             {"name": "ev", "path": "harness/ev", "serves_properties": sorted(CHECKS), "kind_free_text": "evidence collector, rapid driver, replay files, known-findings handling"},
         ],
